@@ -4,6 +4,7 @@ import (
 	"fmt"
 	"go/token"
 	"go/types"
+	"strings"
 
 	"golang.org/x/tools/go/ssa"
 
@@ -82,6 +83,24 @@ func runC20(c *Ctx) {
 		}
 	}
 	if closeServices == nil {
+		// the rollback closure lifted to a method / function of the package
+		for _, ci := range CallsIn(start) {
+			if h := CalleeFunc(ci.Common()); h != nil && h.Blocks != nil && h != closeFn && IsRepoFunc(h) && len(CallSinks(h, CalleeIs(mClose), false)) > 0 {
+				closeServices = h
+			}
+		}
+	}
+	// position of the index parameter (the only parameter of the closure; the last int
+	// parameter of a method)
+	idxPos := -1
+	if closeServices != nil {
+		for i, pm := range closeServices.Params {
+			if bt, isB := pm.Type().Underlying().(*types.Basic); isB && bt.Kind() == types.Int {
+				idxPos = i
+			}
+		}
+	}
+	if closeServices == nil {
 		c.Violate("C20.1-error-edge", "app.(*App).Start|closeServices-exists", p.Pos(start.Pos()), "no closure of Start calls ComponentRunnable.Close (rollback of started components missing)")
 	} else {
 		c.Fn(FuncName(closeServices))
@@ -139,7 +158,7 @@ func runC20(c *Ctx) {
 				}
 				n++
 				args := in.(*ssa.Call).Call.Args
-				if len(args) != 1 || args[0] != tc.l.Index {
+				if idxPos < 0 || idxPos >= len(args) || args[idxPos] != tc.l.Index {
 					bad = "closeServices is not called with the index of the failing component at " + p.Pos(InstrPos(in))
 				}
 			}
@@ -157,7 +176,7 @@ func runC20(c *Ctx) {
 			l := InnermostLoop(cl, closeCalls[0])
 			if l != nil {
 				if init, down := l.CountsDownToZero(); down {
-					if len(closeServices.Params) == 1 && isParamOrSpill(init, closeServices.Params[0]) &&
+					if idxPos >= 0 && isParamOrSpill(init, closeServices.Params[idxPos]) &&
 						assertedFrom(closeCalls[0].(*ssa.Call).Call.Value, l.Index, compField, runnable) && loopExitsOnlyAtHeader(l) {
 						ok = true
 					}
@@ -317,7 +336,7 @@ func runC20(c *Ctx) {
 	{
 		allowed := map[*ssa.Function]bool{start: true, closeFn: true}
 		for _, cs := range Callers(p.FuncsOfPkg("app"), CalleeIs(mInit, mRun, mClose)) {
-			ok := InSet(cs.Fn, allowed)
+			ok := InSet(cs.Fn, allowed) || allowed[effectiveOwner(p, cs.Fn)]
 			c.Check(ok, "C20.5-lifecycle-drivers", FuncName(cs.Fn)+"|"+ObjName(CalleeObj(cs.Instr.(ssa.CallInstruction).Common())), p.Pos(InstrPos(cs.Instr)),
 				"component Init/Run/Close invoked only from App.Start / App.Close")
 		}
@@ -470,10 +489,30 @@ func lookupShape(fn *ssa.Function, compField, parentField *types.Var) (bool, str
 			}
 		}
 	}
-	if outer == nil || inner == nil {
+	libraryScan := false
+	var libArg ssa.Value
+	if outer == nil && len(loops) >= 1 {
+		// the inner scan written as slices.IndexFunc(current.components, pred): first match in
+		// slice order, the same local-first semantics
+		for _, l := range loops {
+			for b := range l.Blocks {
+				for _, in := range b.Instrs {
+					call, ok := in.(*ssa.Call)
+					if !ok {
+						continue
+					}
+					o := CalleeObj(&call.Call)
+					if o != nil && o.Pkg() != nil && strings.HasSuffix(o.Pkg().Path(), "slices") && (o.Name() == "IndexFunc") && len(call.Call.Args) == 2 && IsLoadOfField(call.Call.Args[0], compField) {
+						outer, libraryScan, libArg = l, true, call.Call.Args[0]
+					}
+				}
+			}
+		}
+	}
+	if outer == nil || (inner == nil && !libraryScan) {
 		return false, "expected an outer parent-walk loop containing an inner component scan"
 	}
-	if !inner.ForwardOver(compField) {
+	if !libraryScan && !inner.ForwardOver(compField) {
 		return false, "inner scan is not a forward loop over current.components"
 	}
 	// outer: test current != nil; find the pointer phi or cell
@@ -545,11 +584,17 @@ func lookupShape(fn *ssa.Function, compField, parentField *types.Var) (bool, str
 	}
 	// the slice scanned by the inner loop belongs to cur (not always to app)
 	// inner.TestAtom.Y = len(load components of X); X must originate from cur's cell, checked via: base of the field load is not the bare parameter only
-	lenCall, _ := inner.TestAtom.Y.(*ssa.Call)
-	if lenCall == nil {
-		return false, "inner bound is not len(current.components)"
+	var scanned ssa.Value
+	if libraryScan {
+		scanned = libArg
+	} else {
+		lenCall, _ := inner.TestAtom.Y.(*ssa.Call)
+		if lenCall == nil {
+			return false, "inner bound is not len(current.components)"
+		}
+		scanned = lenCall.Call.Args[0]
 	}
-	svals, _ := Origins(lenCall.Call.Args[0])
+	svals, _ := Origins(scanned)
 	for _, sv := range svals {
 		_, base := LoadedField(sv)
 		bvals, _ := Origins(base)
@@ -565,14 +610,16 @@ func lookupShape(fn *ssa.Function, compField, parentField *types.Var) (bool, str
 	}
 	// a return inside the inner loop (found → return immediately: local first)
 	found := false
-	for b := range inner.Blocks {
-		for _, s := range b.Succs {
-			if !outer.Blocks[s] {
+	if inner != nil {
+		for b := range inner.Blocks {
+			for _, s := range b.Succs {
+				if !outer.Blocks[s] {
+					found = true
+				}
+			}
+			if len(b.Succs) == 0 {
 				found = true
 			}
-		}
-		if len(b.Succs) == 0 {
-			found = true
 		}
 	}
 	// some structured forms put the return in a block outside the natural loop
